@@ -252,6 +252,19 @@ def oracle_repr(ck, rng):
         m3 = Molecules.from_euler(pos, e, seq=seq, degrees=bool(i % 2), order="zyx")
         if not np.allclose(m3.rotator.as_matrix()[0], Rotation.from_euler(seq, e, degrees=bool(i % 2)).as_matrix()[0], atol=1e-9):
             fails.append(f"euler-{seq}-zyx")
+        # rotate_by_euler_angle composes, on the left, the rotation that from_euler builds from the same arguments (both orders, degrees or radians)
+        for order_ in ("xyz", "zyx"):
+            for deg_ in (False, True):
+                ang = rng.uniform(-60, 60, size=3) if deg_ else rng.uniform(-1, 1, size=3)
+                want = Molecules.from_euler(pos, ang[None], seq=seq, degrees=deg_, order=order_).rotator * mol.rotator
+                if order_ == "zyx":
+                    want2 = Rotation.from_euler(seq, ang, degrees=deg_) * mol.rotator
+                    if not np.allclose(want.as_matrix()[0], want2.as_matrix()[0], atol=1e-9): fails.append(f"euler-{seq}-zyx-from_euler")
+                for cp_ in (True, False):
+                    mm_ = mol.copy()
+                    got = mm_.rotate_by_euler_angle(ang, seq=seq, degrees=deg_, order=order_, copy=cp_)
+                    if not np.allclose(got.rotator.as_matrix()[0], want.as_matrix()[0], atol=1e-6):
+                        fails.append(f"rotate_by_euler_angle-{order_}-{'deg' if deg_ else 'rad'}")
         ck.oracle_count("representation_roundtrip", 1, 1)
         for f in fails:
             ck.violation(what=f"{f} round trip changed the orientation", inp={"matrix": M.tolist(), "seq": seq},
@@ -283,6 +296,37 @@ def oracle_repr(ck, rng):
         if bad:
             ck.violation(what=f"axes_to_rotator on a mixed batch: rows {bad} wrong", inp={"matrices": Ms.tolist()},
                          key=from_axes_key(Ms[bad[0]], "zy", batch=True), oracle="from_axes")
+
+
+def oracle_from_axes_batches(ck, rng):
+    """batches of generic molecules given by axes that are neither unit length nor exactly perpendicular: the first-named axis keeps its
+    direction, the second is orthogonalised against it, and every row is independent of its batch-mates"""
+    from acryo import Molecules
+    from acryo.molecules import axes_to_rotator
+    from scipy.spatial.transform import Rotation
+    for it in range(6 if ck.tier == "quick" else 80):
+        nb = int(rng.integers(2, 6))
+        Ms = Rotation.random(nb, random_state=int(rng.integers(0, 2**31))).as_matrix()
+        z, y, x = Ms @ [1, 0, 0], Ms @ [0, 1, 0], Ms @ [0, 0, 1]
+        tilt = rng.uniform(-0.4, 0.4, size=(nb, 1)) * (it % 2)            # second axis leaning towards the first
+        sc1, sc2 = rng.uniform(0.3, 5.0, size=(nb, 1)), rng.uniform(0.3, 5.0, size=(nb, 1))
+        # (first axis, second axis, keyword names): axes_to_rotator(z, y) keeps y and orthogonalises z; from_axes pairs likewise
+        calls = [("axes_to_rotator(z,y)", lambda: axes_to_rotator((z + tilt * y) * sc1, y * sc2).as_matrix()),
+                 ("from_axes(z,y)", lambda: Molecules.from_axes(np.zeros((nb, 3)), z=(z + tilt * y) * sc1, y=y * sc2).rotator.as_matrix()),
+                 ("from_axes(y,x)", lambda: Molecules.from_axes(np.zeros((nb, 3)), y=y * sc1, x=(x + tilt * y) * sc2).rotator.as_matrix())]
+        for name, fn in calls:
+            ck.oracle_count("from_axes_batches", 1, 1)
+            try:
+                out = fn()
+                bad = [j for j in range(nb) if not np.allclose(out[j], Ms[j], atol=1e-5)]
+                single = []
+                detail = f"rows {bad} differ from the orientation whose axes were given" if bad else ""
+            except Exception as e:  # noqa
+                bad, detail = [-1], f"raised {type(e).__name__}: {e}"
+            if bad:
+                ck.violation(what=f"{name} on a batch of {nb} generic molecules (scaled{', non-perpendicular' if it % 2 else ''} axes): {detail}",
+                             inp={"matrices": Ms.tolist(), "tilt": tilt.ravel().tolist()}, key={"site": "from_axes-batch", "non_perpendicular": bool(it % 2)},
+                             oracle="from_axes_batches")
 
 
 def from_axes_key(M, pair, batch):
@@ -317,6 +361,7 @@ def run(ck: common.Check):
     corr_sequences(ck, rng)
     corr_affine_coords(ck, rng)
     oracle_repr(ck, rng)
+    oracle_from_axes_batches(ck, np.random.default_rng(ck.seed + 111111))
 
 
 def replay(data):
